@@ -46,6 +46,16 @@ func Normalise(x interface{}) (NVal, bool) {
 		return NVal{}, false
 	}
 	if t, ok := x.(time.Time); ok {
+		// UnixNano is undefined beyond 1678..2262. The only such value the record model
+		// meets is the zero Time (a time behind a nil pointer): it is ordered before every
+		// time of the pools, whose smallest member is one nanosecond above the minimum
+		// (the probe of scen/stamp.go compares arbitrary times beyond the range exactly).
+		switch {
+		case t.Before(time.Unix(0, math.MinInt64)):
+			return NVal{K: 'i', I: math.MinInt64}, true
+		case t.After(time.Unix(0, math.MaxInt64)):
+			return NVal{K: 'i', I: math.MaxInt64}, true
+		}
 		return NVal{K: 'i', I: t.UnixNano()}, true
 	}
 	v := reflect.ValueOf(x)
